@@ -728,9 +728,30 @@ Section Monitors2.
     | Some e => {| r_id := r_id r; r_vary := r_vary r; r_resolved := r_resolved r; r_recv := date_header (e_hdr e) |}
     | None => r
     end.
-  (* how many references match the request and carry the instant t *)
+  (* does the stored response under this reference match the request — decided on the requests themselves (the
+     one it was stored or last freshened for, and this one) and the stored response's own Vary, not on what the
+     index recorded about them *)
+  Definition spec_ref_matches (r : ref) : option bool :=
+    match stored_by (r_id r) past None with
+    | Some (q0, e) => variant_match (e_hdr e) q0 q
+    | None => Some false
+    end.
+  (* the matching reference with the latest Date, and how many matching ones carry that Date *)
+  Fixpoint spec_select (l : list ref) (best : option ref) : option (option ref) :=
+    match l with
+    | [] => Some best
+    | r :: rest =>
+        match spec_ref_matches r with
+        | None => None
+        | Some false => spec_select rest best
+        | Some true =>
+            spec_select rest (match best with
+                              | Some b => if r_recv b <? r_recv r then Some r else best
+                              | None => Some r end)
+        end
+    end.
   Definition matching_at (l : list ref) (t : Z) : Z :=
-    Z.of_nat (List.length (filter (fun r => match ref_matches r (q_hdr q) with Some true => r_recv r =? t | _ => false end) l)).
+    Z.of_nat (List.length (filter (fun r => match spec_ref_matches r with Some true => r_recv r =? t | _ => false end) l)).
 
   Definition mon_C09 : verdict :=
     if negb (plain_get q) then VNa else
@@ -746,10 +767,8 @@ Section Monitors2.
                                        | _ => a end) prefix None with
           | Some l =>
               let rl := map redate (strip_refs l) in
-              match find_match rl (q_hdr q) 0 None with
-              | Some (Some i) => match nth_error rl (Z.to_nat i) with
-                                 | Some r => if matching_at rl (r_recv r) =? 1 then Some (r_id r) else None
-                                 | None => None end
+              match spec_select rl None with
+              | Some (Some r) => if matching_at rl (r_recv r) =? 1 then Some (r_id r) else None
               | _ => None
               end
           | None => None
@@ -833,9 +852,16 @@ Section Monitors2.
                         | Some ids => existsb (fun id => negb (beq id []) && in_names id live) ids
                         | None => false
                         end) (invalidating (q, o)) in
+    (* an index never lists one stored response twice: its length is the number of distinct variants it knows *)
+    let duplicate :=
+      existsb (fun ev => match ev with
+                         | EvSetRefs _ l => let ids := filter (fun id => negb (beq id [])) (map (fun r => match r with Some x => r_id x | None => [] end) l) in
+                                            negb (Z.of_nat (List.length ids) =? count_distinct beq ids [])
+                         | _ => false end) (x_events o ++ x_bg_events o) in
     if bound <? Z.of_nat (List.length live) then VBad 1
     else if d * (v + 1) <? max_index_len (x_events o ++ x_bg_events o) then VBad 2
     else if left_behind then VBad 3
+    else if duplicate then VBad 4
     else VOk.
 End Monitors2.
 
